@@ -15,7 +15,8 @@
     code deliberately deviates from exactness is the pruning of strings with |weight| <= 1e-14:
     theorem 4 takes the pruning predicate as a parameter and says exactly what is dropped;
     theorem 3 is the case where only exact zeros are pruned. *)
-From Qib Require Import Fermi.FermiEnc Fermi.FermiInst Base.Inst.
+From Qib Require Import Fermi.FermiEnc Fermi.FermiLoop Fermi.FermiInst Base.Inst.
+From Coq Require Import QArith.
 From Run Require Import GenFermi.
 
 (** the regenerated table is the one the proofs are about *)
@@ -32,6 +33,47 @@ Section Weight.
   Lemma gen_jw_weight_ok (h : K) k c : gen_jw_weight h k c = smul (spow h k) c.
   Proof. unfold gen_jw_weight. ring. Qed.
 End Weight.
+
+(** 0. THE CODE'S LOOP is the model.  [gen_jw_loop] is the assembling loop of
+       jordan_wigner_encode_field_operator translated statement by statement on every run (gen/fermi.py
+       encoder_loop): `for term`, `for coeff in np.nditer(...)`, the test `if coeff == 0: continue` ([isz]),
+       `pstrings = [identity]`, the expansion `[ps @ clist[j][0] for ps in pstrings] + [ps @ clist[j][1] ...]`
+       selected by the operator type (order of the factors and of the two halves as written), the weight, and
+       `sign = ps.refactor_sign(); add_pauli_string(WeightedPauliString(ps, sign * weight))`.  It is EQUAL to the
+       hand-written [enc_raw] the theorems below are about.  If the source has no zero-skip the model is taken
+       with the test that never fires. *)
+Definition code_isz {K : Scalar} (isz : K -> bool) : K -> bool :=
+  if gen_jw_skips_zero then isz else fun _ => false.
+Definition code_encode {K : Scalar} (h : K) (isz negl : K -> bool) (n : nat) (op : list (term K)) : list (wstr (K:=K)) :=
+  remove_zero_weight_strings negl
+    (enc_dim (gen_jw_params h) n (gen_jw_loop h isz n (gen_jw_tab true n) (gen_jw_tab false n) op)).
+
+Theorem C11_code_loop_is_the_model :
+  forall (K : Scalar) (h : K) (isz negl : K -> bool) n (op : list (term K)),
+    code_encode h isz negl n op = encode (gen_jw_params h) (code_isz isz) negl n op.
+Proof.
+  intros K h isz negl n op. unfold code_encode, encode. do 2 f_equal.
+  unfold gen_jw_loop, enc_raw.
+  apply fold_left_ext_in. intros acc t _. unfold enc_term.
+  apply fold_left_ext_in. intros acc' idx _. cbv [code_isz gen_jw_skips_zero]. cbv zeta.
+  try (destruct (isz (tcf t idx)); [reflexivity|]).
+  unfold enc_coeff, expand. cbn [gen_jw_params ep_tab ep_weight].
+  rewrite (fold_left_ext_in _ (fun acc o => expand_step (gen_jw_tab (fst o) n (snd o)) acc) (combine (tpat t) idx))
+    by (intros a [[|] j] _; reflexivity).
+  reflexivity.
+Qed.
+Print Assumptions C11_code_loop_is_the_model.
+
+Lemma code_isz_ok {K : Scalar} (isz : K -> bool) :
+  (forall c, isz c = true -> c = s0) -> forall c, code_isz isz c = true -> c = s0.
+Proof. intros H c. unfold code_isz. destruct gen_jw_skips_zero; [apply H|discriminate]. Qed.
+
+(** 0b. the pruning threshold handed to remove_zero_weight_strings is the documented 1e-14
+        (exact value of the binary64 literal) *)
+Theorem C11_pruning_threshold_as_documented :
+  gen_jw_tol = Qmake 6338253001141147%Z 633825300114114700748351602688%positive.
+Proof. reflexivity. Qed.
+Print Assumptions C11_pruning_threshold_as_documented.
 
 (** 1. the two strings of a ladder operator add up to twice its reference matrix *)
 Theorem C11_two_strings_per_ladder_operator :
@@ -87,6 +129,34 @@ Proof.
   - intros k c. apply gen_jw_weight_ok.
 Qed.
 Print Assumptions C11_encoded_matrix_up_to_pruned_strings.
+
+(** 5. MAIN, for the translated code: with any zero test that only fires on zero and any pruning predicate,
+       (matrix of the encoder's result) + (matrix of the pruned strings) = matrix of the field operator, and every
+       pruned string has negligible weight; when only exact zeros are pruned the matrices are equal. *)
+Theorem C11_code_encoder_reproduces_the_operator :
+  forall (K : Scalar) (L : ScalarLaws K) (h : K) (isz negl : K -> bool) n (op : list (term K)),
+    sadd h h = s1 -> (forall c, isz c = true -> c = s0) ->
+    let raw := enc_dim (gen_jw_params h) n (gen_jw_loop h isz n (gen_jw_tab true n) (gen_jw_tab false n) op) in
+    (meq n (madd (opmatrix (code_encode h isz negl n op)) (opmatrix (dropped_strings negl raw))) (op_matrix n op)
+     /\ Forall (fun w => negl (snd w) = true) (dropped_strings negl raw))
+    /\ ((forall w, negl w = true -> w = s0) -> meq n (opmatrix (code_encode h isz negl n op)) (op_matrix n op)).
+Proof.
+  intros K L h isz negl n op Hh Hz. cbv zeta.
+  pose proof (C11_code_loop_is_the_model K h isz (fun _ => false) n op) as E0.
+  assert (E : enc_dim (gen_jw_params h) n (gen_jw_loop h isz n (gen_jw_tab true n) (gen_jw_tab false n) op)
+              = enc_dim (gen_jw_params h) n (enc_raw (gen_jw_params h) (code_isz isz) n op)).
+  { unfold code_encode, encode in E0.
+    assert (N : forall l : list (wstr (K:=K)), remove_zero_weight_strings (fun _ => false) l = l).
+    { intros l. unfold remove_zero_weight_strings.
+      assert (G : forall r len, rzws_aux (K:=K) (fun _ => false) r len = r)
+        by (induction r as [|w r IH]; intros len; cbn; [reflexivity|rewrite IH; reflexivity]).
+      rewrite G. apply rev_involutive. }
+    rewrite !N in E0. exact E0. }
+  rewrite E, C11_code_loop_is_the_model. split.
+  - apply (C11_encoded_matrix_up_to_pruned_strings K L h (code_isz isz) negl n op Hh (code_isz_ok isz Hz)).
+  - intros Hn. apply (C11_encoded_matrix_is_operator_matrix K L h (code_isz isz) negl n op Hh (code_isz_ok isz Hz) Hn).
+Qed.
+Print Assumptions C11_code_encoder_reproduces_the_operator.
 
 (** non-vacuity: the hypotheses are satisfiable (Gaussian rationals, h = 1/2), on a
     cancellation-heavy operator  a_0^dag a_1 + a_1 a_0^dag + (2+i) a_1^dag a_0^dag a_1  on 2 sites *)
